@@ -19,7 +19,7 @@ checks.update({
    note="trusts the shims (sync/time/errgroup import rewrites), simnet and the cooperative scheduler's sequentially consistent view; errgroup siblings run in call order"),
  "C04": dict(cat="model_checking", engine="clustermc", ref="6 C04",
    technique="explicit-state BFS over operation sequences on a simulated cluster of real members (path replay, canonical-state de-duplication); white-box comparison of backup and primary copies after every step",
-   text="All sequences up to depth 4 (quick) / 5 (thorough) over every mutating operation and option form, clock ticks and eviction, through each entry point, R in {2,3}: after every acknowledged step each listed backup holds a copy identical to the primary (value, expiry, timestamp) or none when the primary has none.",
+   text="All sequences up to depth 4 (quick) / 5 (thorough) over every mutating operation and option form, clock ticks and eviction, through each entry point, R in {2,3}: after every acknowledged step each listed backup holds a copy identical to the primary (value, expiry, timestamp) or none when the primary has none. Small-table configurations add a fill event (the key's versions spread over storage tables). LRU part: Put sequences over four keys on replicated clusters with MaxKeys / MaxInuse small enough to evict, the same mirror oracle after every Put.",
    note="white-box copies decoded via verif accessors; reference model only used for step expectations"),
  "C07": dict(cat="model_checking", engine="schedmc", ref="6 C07",
    technique="stateless exploration of thread interleavings (iterative preemption bounding) on real members; histories checked against counter / exchange-chain specifications",
